@@ -42,7 +42,7 @@ func c1FailingArrangement(src string, want string, k int, seed uint64) ([]string
 		diffs := c1Diffs(base.info.paths, res.info.paths)
 		cls := x.class(p, texts, base.canon, res.canon, applied)
 		if cls == "" {
-			cls = c1classByDiff(p, base, res, diffs)
+			cls = c1classByDiff(p, base, res, diffs, texts...)
 		}
 		if cls == want {
 			return texts, c1diffString(diffs), true
